@@ -63,8 +63,8 @@ class Holder:
 
 
 KINDS = [P3, P3Sub, P3Plain, Unrelated, str]
-CLS = {"P3": P3, "H2": H2, "Holder": Holder, "P3Sub": P3Sub}
-FIELDS = {"P3": ["a", "b", "c"], "H2": ["a", "b"], "P3Sub": ["a", "b", "c"]}
+CLS = {"P3": P3, "H2": H2, "Holder": Holder, "P3Sub": P3Sub, "P3Plain": P3Plain}
+FIELDS = {"P3": ["a", "b", "c"], "H2": ["a", "b"], "P3Sub": ["a", "b", "c"], "P3Plain": ["a", "b", "c"]}
 
 
 class C13(Case):
@@ -74,7 +74,7 @@ class C13(Case):
         out = []
         for i in range(n):
             vals = {f: mk.int("m%d.%s" % (i, f)) for f in FIELDS[cls_name]}
-            if mixed and cls_name in ("P3", "P3Sub"):
+            if mixed and cls_name in ("P3", "P3Sub", "P3Plain"):
                 kind = KINDS[mk.choice("m%d.kind" % i, len(KINDS))]
             else:
                 kind = CLS[cls_name]
@@ -101,7 +101,7 @@ class C13(Case):
         # instances of T (and of a subclass) that exist in the registry but are NOT members of the supplied domain: a
         # variable over a supplied domain must never range over them, even when the domain holds no instance of T at all
         outside = [T(**{f: mk.int("out%d.%s" % (i, f)) for f in FIELDS[cls_name]}) for i in range(1)]
-        if cls_name == "P3":
+        if cls_name in ("P3", "P3Plain"):
             outside.append(P3Sub(**{f: mk.int("outsub.%s" % f) for f in FIELDS[cls_name]}))
         holders = None
         if sp.get("nested"):
@@ -223,6 +223,10 @@ def shapes(tier, seed):
     out.append(dict(cls="P3", pos=[S(0)], n=n, mixed=True))
     out.append(dict(cls="P3Sub", kw={"a": S(0)}, n=n, mixed=True))
     out.append(dict(cls="P3Sub", kw={}, n=n, mixed=True))
+    # the variable's type is an UNDECORATED subclass of a @symbol class: members of the base or of sibling subclasses are filtered out
+    out.append(dict(cls="P3Plain", kw={}, n=n, mixed=True))
+    out.append(dict(cls="P3Plain", kw={"a": S(0)}, n=n, mixed=True))
+    out.append(dict(cls="P3Plain", pos=[S(0)], n=n, mixed=True, domain="tuple"))
     # domains holding no instance of T at all (empty, or only foreign objects)
     for kw in ({}, {"a": S(0)}):
         out.append(dict(cls="P3", kw=kw, n=0))
